@@ -67,7 +67,8 @@ class ExcCase:
     """allowed exceptional exit.  when(pc) -> clause over the ENTRY state (Forall/Exists allowed);
     clauses(pc) -> post clauses; unchanged=True adds 'every field and heap map equals its entry value'."""
 
-    def __init__(self, etype, when, name, unchanged=True, clauses=None, props=()):
+    def __init__(self, etype, when, name, unchanged=True, clauses=None, props=(), may=False):
+        self.may = may      # True: the exception is allowed under `when` but not required
         self.etype = etype
         self.when = when
         self.name = name
@@ -173,7 +174,7 @@ def apply_contract(ex, con, args, st, lineno, lib, cls):
         s.assume(case.when(pc))
         s.trace.append("L%d:%s raises %s" % (lineno, con.name, case.etype))
         if case.clauses is not None:
-            _build_new_state(con, pc, case.clauses(pc), lineno)
+            _build_new_state(con, pc, case.clauses, lineno)
         from .execute import feasible
         if feasible(s, ctx):
             outs.append((Exc(case.etype, lineno, "from %s" % con.name), s))
@@ -182,7 +183,7 @@ def apply_contract(ex, con, args, st, lineno, lib, cls):
     pc = PostCtx("caller", st, s, args, None, lib, cls)
     if con.normal_requires is not None:
         s.assume(con.normal_requires(pc))
-    res = _build_new_state(con, pc, con.post(pc), lineno)
+    res = _build_new_state(con, pc, con.post, lineno)
     if con.excs:
         from .execute import feasible
         if not feasible(s, ctx):
@@ -447,6 +448,8 @@ def _judge(lib, cls, con, ctx, old, args, o, k, fnode):
             ctx.oblige("exit%d.normal-requires" % k, st, [con.normal_requires(pc)], "post", fnode.lineno, con.props)
         # an exception case whose condition holds must not exit normally
         for case in con.excs:
+            if case.may:
+                continue
             wc = case.when(pc)
             neg_q, neg_f = logic.negate_clause(wc)
             # goal: not when  ==  (neg) ; expressed as clause
